@@ -138,6 +138,8 @@ theorem C10_step_refines (st : St) (r : Ref) (op : Op) (h : Inv st r) :
   | inbound => exact ⟨rfl, h⟩
   | ack a => exact C10_ack_refines st r a h
   | ackFail a => exact ⟨rfl, (C10_ack_refines st r a h).2⟩
+  | freshSession => exact ⟨rfl, C10_inv_init⟩
+  | resumed => exact ⟨rfl, h⟩
 
 /-- **Refinement for every outbound history**: whatever sequence of Send / SendRaw / `<r/>` / `<a/>` sends and
 acknowledgements with any h (below, equal to or above the number sent, repeated, stale), the writes are those of
@@ -194,6 +196,15 @@ theorem C10_oracle_accepts_model (st : St) (r : Ref) (op : Op) (h : Inv st r) :
       | exact ⟨⟨hw, h1⟩, h2⟩
       | exact ⟨⟨hw, Or.inl h1⟩, h2⟩
 
+/-- A session enabled anew after a refused resumption starts empty and numbers from 1 again, whatever the old session
+held; a confirmed resumption keeps everything. -/
+theorem C10_fresh_session_starts_empty (st : St) (b : String) :
+    (run st [.freshSession, .sendRaw b, .ack 1]).2 = [[], [b], []] ∧
+    (run st [.freshSession, .sendRaw b]).1 = ⟨[⟨1, b⟩], 1⟩ := by
+  constructor <;> simp [run, step, pushS, nextIdS, dropAcked]
+
+theorem C10_resumed_keeps_held (st : St) : (step st .resumed) = (st, []) := rfl
+
 -- non-vacuity: the design's witness history [sendRaw x, sendRaw y, ack 1] retransmits y only, then <r/>
 example : (run ⟨[], 0⟩ [.sendRaw "x", .sendRaw "y", .ack 1]).2 = [["x"], ["y"], ["y", rBytes]] := by decide
 example : (run ⟨[], 0⟩ [.sendRaw "x", .sendRaw "y", .ack 1]).1 = ⟨[⟨2, "y"⟩], 2⟩ := by decide
@@ -213,3 +224,5 @@ end XmppVerif.Props.C10
 #print axioms XmppVerif.Props.C10.C10_nonza_never_held
 #print axioms XmppVerif.Props.C10.C10_answer_never_held
 #print axioms XmppVerif.Props.C10.C10_oracle_accepts_model
+#print axioms XmppVerif.Props.C10.C10_fresh_session_starts_empty
+#print axioms XmppVerif.Props.C10.C10_resumed_keeps_held
